@@ -77,7 +77,8 @@ def sim_script(pname, cfg, num, depth, seed, actpct=40, workers=4):
         r = subprocess.run(cmd, cwd=d, stdout=subprocess.PIPE, stderr=subprocess.STDOUT, universal_newlines=True, timeout=900)
         out = r.stdout
     except subprocess.TimeoutExpired as e:
-        out = (e.stdout or "") + "\nTIMEOUT"
+        so = e.stdout or ""
+        out = (so.decode("utf-8", "replace") if isinstance(so, bytes) else so) + "\nTIMEOUT"
     shutil.rmtree(meta, ignore_errors=True)
     shutil.rmtree(os.path.join(d, "states"), ignore_errors=True)
     behaviours = []
